@@ -247,7 +247,23 @@ def run(shard, ctx):
         def close(self):
             pass
 
-    for kind in (Plain, LogList, Unconnected, Sized, EqualsAnything, Slotted):
+    # ... and device objects whose execute() declares the flag in another legitimate way: keyword-only, or swallowed by **kwargs
+    # (a wrapper that forwards to a real device)
+    class KeywordOnly(Plain):
+        def execute(self, cmd, *, en_raw_sense=False):
+            self.n += 1
+
+    class Forwarding(Plain):
+        def execute(self, cmd, **kwargs):
+            if set(kwargs) - {"en_raw_sense"}:
+                raise TypeError("unexpected %r" % sorted(kwargs))
+            self.n += 1
+
+    class ExtraOptions(Plain):
+        def execute(self, cmd, en_raw_sense=False, timeout=30, retries=0):
+            self.n += 1
+
+    for kind in (Plain, LogList, Unconnected, Sized, EqualsAnything, Slotted, KeywordOnly, Forwarding, ExtraOptions):
         for reattach in (False, True):
             wit = {"configuration": cfg, "device_object": kind.__name__, "attached_by": "s(dev)" if reattach else "SCSI(dev)"}
             ctx.case((cfg, "facade-plain", kind.__name__, reattach), True)
@@ -283,6 +299,11 @@ def run(shard, ctx):
                "iscsi://user%secret@192.0.2.7:3260/iqn.2003-01.org.example:t/1", "iscsi://user@192.0.2.7/iqn.2003-01.org.example:t/2",
                "iscsi://[2001:db8::7]:3260/iqn.2003-01.org.example:t/0", "iscsi://chap%pass%word@h:1/iqn.x:y/255", "/dev", "/devx/sg0", "dev/sg0", " /dev/sg0", "/DEV/sg0", "iscsi://192.0.2.7:3260/iqn.2003-01.org.example:t/0",
                "iscsi://h/iqn/0", "ISCSI://h/iqn/0", "iscsi:/h/iqn/0", "iscsi//h", "", "file:///dev/sg0", "sg0", "\\\\.\\PhysicalDrive0",
+               # strings a URL *parser* would reject or normalise (unbalanced brackets in a CHAP secret or host, hosts in brackets
+               # that are no IP literal, full-width look-alikes of / ? # @ :): the library does not parse, the binding does
+               "iscsi://backup%Xk2[9qLm7Zp4@192.0.2.7:3260/iqn.2003-01.org.example:t/1", "iscsi://u%p]w@192.0.2.7/iqn.2003-01.org.example:t/0", "iscsi://[not-an-ip]:3260/iqn.x:y/0",
+               "iscsi://[2001:db8::7/iqn.x:y/0", "iscsi://h\uff0fx/iqn.x:y/0", "iscsi://user\uff20h/iqn.x:y/0", "iscsi://h:3260/iqn.x:y/0?opt=1#frag", "iscsi://h:port/iqn.x:y/0", "iscsi://h:99999/iqn.x:y/0",
+               "nbd://[2001:db8::7/export", "rbd://pool]/image", "http://[::1", "x://\uff03", "nbd://h\uff1a1/x",
                # logical unit numbers beyond one byte (the binding does the wire encoding, the library passes the number on)
                "iscsi://192.0.2.7:3260/iqn.2003-01.org.example:t/256", "iscsi://192.0.2.7:3260/iqn.2003-01.org.example:t/300",
                "iscsi://192.0.2.7:3260/iqn.2003-01.org.example:t/4660", "iscsi://192.0.2.7:3260/iqn.2003-01.org.example:t/16383",
@@ -296,6 +317,50 @@ def run(shard, ctx):
     strings += [node.encode(), bytearray(node.encode()), os.fsencode(more_nodes[0]), [node], (node,), b"iscsi://h/iqn/0", ["iscsi://h/iqn/0"]]
     isc = sys.modules.get("iscsi")
     default_iqn = "iqn.2018-01.org.pyscsi:%s" % socket.gethostname()
+    # an open that the system refuses (write-protected medium, a node the user may not write, a busy unit): the refusal reaches
+    # the caller; a device that silently holds a handle of another access mode than was asked for is not "opened as requested"
+    if shard["sgio"]:
+        import errno as _errno
+
+        import builtins as _bi
+
+        state = {"errno": None, "modes": ()}
+
+        def failing_open(path, mode="r", *a, **kw):
+            if state["errno"] is not None and path == node and (not state["modes"] or any(ch in mode for ch in state["modes"])):
+                raise OSError(state["errno"], os.strerror(state["errno"]), path)
+            return _bi.open(path, mode, *a, **kw)
+
+        sdm.open = failing_open
+        try:
+            for err in (_errno.EACCES, _errno.EROFS, _errno.EPERM, _errno.EBUSY, _errno.ENXIO, _errno.ENOMEDIUM, _errno.EMFILE, _errno.EIO):
+                for rw, modes in ((True, "+w"), (True, ""), (False, "")):
+                    for entry in ("init_device", "SCSIDevice"):
+                        state["errno"], state["modes"] = err, modes
+                        wit = {"configuration": cfg, "entry": entry, "device": node, "readwrite": rw, "open_fails_with": _errno.errorcode[err], "only_when_writing": bool(modes)}
+                        ctx.case((cfg, "open-refused", entry, rw, err, modes), True)
+                        ctx.count("refused_opens")
+                        try:
+                            obj = init_device(node, rw) if entry == "init_device" else sdm.SCSIDevice(node, rw)
+                            exc = None
+                        except Exception as e:  # noqa: BLE001
+                            obj, exc = None, e
+                        state["errno"] = None
+                        if obj is not None:
+                            import fcntl
+
+                            f = getattr(obj, "_file", None)
+                            fl = fcntl.fcntl(f.fileno(), fcntl.F_GETFL) & os.O_ACCMODE if f is not None and not f.closed else None
+                            ctx.fail("C19:%s.refused_open_not_reported" % cfg, "%s(%r, read_write=%s): the open was refused with %s, yet a device was returned (its handle has access mode %r, asked for %s)"
+                                     % (entry, "node", rw, _errno.errorcode[err], fl, "O_RDWR" if rw else "O_RDONLY"), wit)
+                            try:
+                                obj.close()
+                            except Exception:  # noqa: BLE001
+                                pass
+                        elif not isinstance(exc, OSError) or exc.errno != err:
+                            ctx.fail("C19:%s.refused_open_reported_as_something_else" % cfg, "%s: the open was refused with %s, the caller got %r" % (entry, _errno.errorcode[err], exc), wit, exc=exc)
+        finally:
+            del sdm.open
     n_iscsi = 0
     for dev in strings:
         # read_write is a truth value: whatever is true asks for a read-write handle
